@@ -90,6 +90,11 @@ func observedSizes(e *Exec, reqPlain, respPlain [][]byte) c10Sizes {
 		for _, f := range fw {
 			if (bo.Proto == "grpcweb" && f.Flags&0x80 != 0) || (bo.Proto == "connect-stream" && f.Flags&2 != 0) {
 				noteRep(&s, len(f.Payload)) // end frames are buffered too
+				if f.Flags&1 != 0 && e.Backend.Script.Comp != "" {
+					if d, err := decompressWith(e.Backend.Script.Comp, f.Payload); err == nil {
+						noteRep(&s, len(d))
+					}
+				}
 				continue
 			}
 			noteRep(&s, len(f.Payload))
@@ -97,6 +102,11 @@ func observedSizes(e *Exec, reqPlain, respPlain [][]byte) c10Sizes {
 	default:
 		noteRep(&s, len(bo.Body))
 		noteRep(&s, len(bo.Written))
+		if e.Backend.Script.Comp != "" {
+			if d, err := decompressWith(e.Backend.Script.Comp, bo.Written); err == nil {
+				noteRep(&s, len(d)) // a compressed unary body or error body, inflated
+			}
+		}
 	}
 	for _, raw := range bo.RawMsgs {
 		noteRep(&s, len(raw)) // decompressed form at the backend
@@ -234,7 +244,19 @@ func runC10(c *Ctx, i int, r *rand.Rand) {
 	creq.FrameComp = repeatBool(true, nreq)
 	script.FrameComp = repeatBool(true, nresp)
 	if family == "big-error" {
-		script.Err = &RPCError{Code: 1 + r.IntN(16), Msg: strings.Repeat("e", pick(r, []int{int(L) / 2, int(L), 2 * int(L), 10 * int(L)}))}
+		esz := pick(r, []int{int(L) / 2, int(L), 2 * int(L), 10 * int(L)})
+		if chance(r, 50) {
+			// a compressed end-of-stream frame / error body: tiny on the wire, large once inflated
+			script.Comp, script.CompressEnd = "gzip", true
+			esz = pick(r, []int{int(L) / 2, int(L) - 200, 2 * int(L), 10 * int(L), 100 * int(L), 1000 * int(L)})
+			if max := tierN(c.Tier, 8<<20, 128<<20); esz > max {
+				esz = max
+			}
+			if esz < 0 {
+				esz = 0
+			}
+		}
+		script.Err = &RPCError{Code: 1 + r.IntN(16), Msg: strings.Repeat("e", esz)}
 		script.ErrAfter = r.IntN(len(script.Msgs) + 1)
 		if m.Stream == stUnary || m.Stream == stClient {
 			script.ErrAfter = 0
